@@ -16,7 +16,7 @@ PROPS = {
                       {"harness": "boolgp", "args": ["--scope", "S5"], "shards": 6}],
             "thorough": [{"harness": "boolgp", "args": ["--scope", "S1", "--nmax", 5]},
                          {"harness": "boolgp", "args": ["--scope", "S5"], "shards": 6},
-                         {"harness": "boolgp", "args": ["--scope", "S1", "--nmax", 4, "--k", 8, "--board", "flat"]},
+                         {"harness": "boolgp", "args": ["--scope", "S1", "--nmax", 3, "--k", 8, "--board", "flat"]},
                          {"harness": "boolgp", "args": ["--scope", "S1", "--nmax", 4, "--k", 8, "--board", "aligned"]},
                          {"harness": "boolgp", "args": ["--scope", "S0", "--nmin", 4, "--nmax", 6, "--k", 8, "--board", "aligned", "--cliponly", 1]},
                          {"harness": "boolgp", "args": ["--scope", "S0", "--nmin", 4, "--nmax", 5, "--k", 16, "--both", 1, "--board", "aligned"]},
